@@ -34,10 +34,8 @@ const (
 	kLtsvColon      = "ltsv-colon-dropped"       // F-C02-2
 	kSingleEmpty    = "single-column-empty-row"  // F-C02-3
 	kFixedCrlf      = "fixed-crlf-cell"          // F-C02-4
-	kJsonlBlank     = "jsonl-trailing-blank-line" // F-C02-5
 	kCrFinal        = "cr-final-line-break"      // new: CR directly before EOF -> bufio UnreadRune error
 	kLtsvSingle     = "ltsv-single-field-dropped" // new: LTSV lines with one field are skipped
-	kTailLineBreak  = "commit-tail-line-break"   // new: the appended line break is the flag's, a one-line file changes convention
 	c02SpecIDOffset = 1000000
 )
 
@@ -445,13 +443,6 @@ func c02CsvDefects(t c02Table, delim rune, lb text.LineBreak, tail text.LineBrea
 	if tail == text.CR {
 		tags = append(tags, kCrFinal)
 	}
-	lines := len(t.rows)
-	if !noHeader {
-		lines++
-	}
-	if lines == 1 && tail != "" && tail != lb {
-		tags = append(tags, kTailLineBreak)
-	}
 	return tags
 }
 
@@ -751,7 +742,7 @@ func runC02(seed int64, tier string, out string) {
 	c := &c02Run{r: r, meta: meta, ld: &c02Loader{dir: sc.Dir}, sig: map[string]bool{}, tx: newTx(sc.Dir)}
 	c.repaired = c02DetectRepaired(c.tx)
 	meta.Notes = append(meta.Notes, fmt.Sprintf("writer variant detected on this tree: repaired=%v (encodeCSV quotes cells containing CR/LF)", c.repaired))
-	meta.Rule = "tables of 0-40 rows x 1-6 columns whose cells are NULL, integers, floats, booleans or texts over an adversarial alphabet (the delimiter, double quote, CR, LF, CRLF, TAB, colon, comma, leading/trailing blanks, NBSP, ideographic space, backslash, non-ASCII incl. a supplementary-plane character, empty) with delimiters , TAB ; | space colon, line breaks LF/CR/CRLF, enclose-all, without-header and with/without the appended line break: written by query.EncodeView and loaded back through the CSV(...)/LTSV(...) table objects; arbitrary short texts and mutated written files through the loaders with no-header/without-null/allow-uneven-fields; end to end with the csvq binary for CSV, TSV, LTSV, FIXED (explicit delimiter positions on both sides), JSON, JSONL x LF/CR/CRLF x enclose-all x without-header x strip-ending-line-break (write with --out / stdout / INSERT+COMMIT by a second process, re-import with a fresh process and the same settings; text cells and NULL, header h1..hn; UTF-8 plus SJIS/UTF-16/UTF-8-with-BOM with encodable text); for CSV/TSV/LTSV in UTF-8 the bytes of the final file are also compared with the models' bytes; two refusal scenarios (unspellable LTSV value in the first / in the 400th record). Encoding preservation: for each of the 18 paths of the loaders' encoding sniffing (AUTO / UTF8 / generic UTF16 / explicit UTF8M, UTF16LE, UTF16BE, UTF16LEM, UTF16BEM, SJIS against files in UTF-8, UTF-16 LE/BE and Shift-JIS with and without byte order mark as far as csvq supports the combination) x CSV/TSV/LTSV/FIXED a file produced by the harness's own encoders is updated (UPDATE or INSERT + COMMIT) by a second process and the rewritten BYTES are checked with the harness's own strict decoders: same byte order mark, same byte order/encoding, decoded text = the updated table; SHOW FIELDS must report the encoding the sniffing rules resolve to. Only UTF-8 in the direct tie; U+FEFF and NUL are outside the fragment. Cases that fall under a known finding (by a syntactic test on the generated table) are generated in separate streams and their specification verdicts are reported under a tagged id; model/implementation comparisons of the same cases stay untagged. A case is non-trivial when the table has at least one record (write streams) or the loader returned a table (read streams); distinct = distinct written byte strings / distinct inputs among them."
+	meta.Rule = "tables of 0-40 rows x 1-6 columns whose cells are NULL, integers, floats, booleans or texts over an adversarial alphabet (the delimiter, double quote, CR, LF, CRLF, TAB, colon, comma, leading/trailing blanks, NBSP, ideographic space, backslash, non-ASCII incl. a supplementary-plane character, empty) with delimiters , TAB ; | space colon, line breaks LF/CR/CRLF, enclose-all, without-header and with/without the appended line break: written by query.EncodeView and loaded back through the CSV(...)/LTSV(...) table objects; arbitrary short texts and mutated written files through the loaders with no-header/without-null/allow-uneven-fields; end to end with the csvq binary for CSV, TSV, LTSV, FIXED (explicit delimiter positions on both sides), JSON, JSONL x LF/CR/CRLF x enclose-all x without-header x strip-ending-line-break (write with --out / stdout / INSERT+COMMIT by a second process, re-import with a fresh process and the same settings; text cells and NULL, header h1..hn; UTF-8 plus SJIS/UTF-16/UTF-8-with-BOM with encodable text); for CSV/TSV/LTSV in UTF-8 the bytes of the final file are also compared with the models' bytes; refusals: an LTSV value with TAB, a fixed-length value with LF/CR or too long for its field, in the first and in the 400th record, to --out and to stdout, and INSERTed + COMMITted into an existing file: exit code not 0, a data encode error, no byte written, the committed file unchanged; generated fixed-length tables with a CR/LF cell are judged the same way. The committing process of the INSERT+COMMIT path runs under another --line-break than the file's whenever the file shows its line break. Encoding preservation: for each of the 18 paths of the loaders' encoding sniffing (AUTO / UTF8 / generic UTF16 / explicit UTF8M, UTF16LE, UTF16BE, UTF16LEM, UTF16BEM, SJIS against files in UTF-8, UTF-16 LE/BE and Shift-JIS with and without byte order mark as far as csvq supports the combination) x CSV/TSV/LTSV/FIXED a file produced by the harness's own encoders is updated (UPDATE or INSERT + COMMIT) by a second process and the rewritten BYTES are checked with the harness's own strict decoders: same byte order mark, same byte order/encoding, decoded text = the updated table; SHOW FIELDS must report the encoding the sniffing rules resolve to. Only UTF-8 in the direct tie; U+FEFF and NUL are outside the fragment. Cases that fall under a known finding (by a syntactic test on the generated table) are generated in separate streams and their specification verdicts are reported under a tagged id; model/implementation comparisons of the same cases stay untagged. A case is non-trivial when the table has at least one record (write streams) or the loader returned a table (read streams); distinct = distinct written byte strings / distinct inputs among them."
 	c.w = &shardWriter{dir: out, prop: "C02", max: 150, meta: meta,
 		header: "From Coq Require Import NArith List.\nRequire Import Csvq.Model.Base Csvq.Model.Csv Csvq.Model.Ltsv Csvq.Harness.H02.\nOpen Scope list_scope.\nOpen Scope N_scope.\n",
 		footer: func(ls []string) string {
@@ -848,11 +839,8 @@ func runC02(seed int64, tier string, out string) {
 		enclose, noHeader := r.Intn(3) == 0, r.Intn(4) == 0
 		t := c02GenTable(r, delim, 60)
 		tail := lb
-		switch r.Intn(6) {
-		case 0:
+		if r.Intn(6) == 0 {
 			tail = ""
-		case 1:
-			tail = pickLB() // COMMIT appends the flag's line break, not the file's
 		}
 		if r.Intn(5) == 0 && len(t.rows) > 0 { // one column with an empty / NULL cell
 			t.hdr = t.hdr[:1]
